@@ -30,18 +30,27 @@ def gen(rng, n):
         nodes += [['d', vol + '/tdir2', 0o755], ['f', vol + '/tdir2/in2', 'in2']]
         where = rng.choice([lay.home, lay.home + '/sub', vol, vol + '/sub'])
         nodes.append(['d', where, 0o755])
-        tk = rng.choice(['file', 'dir', 'dangling', 'link', 'dir_other_vol', 'above'])
+        tk = rng.choice(['file', 'dir', 'dangling', 'link', 'dir_other_vol', 'above', 'rodir'])
         # 'above': the link points to a directory that CONTAINS the trash directory the link goes to (the home directory, the volume's
         # top directory, the root, '..'): only somebody who follows the link could think the entry contains its own destination
         target = {'file': lay.home + '/tfile', 'dir': lay.home + '/tdir', 'dangling': 'no/where', 'link': 'l2',
                   'dir_other_vol': vol + '/tdir2',
-                  'above': rng.choice([lay.home, '/', vol, '..', '../..'])}[tk]
+                  'above': rng.choice([lay.home, '/', vol, '..', '../..']),
+                  'rodir': '/canary/rodir'}[tk]          # a directory its owner may not write (0555): nothing about it changes, not even its mode
         if tk in ('file', 'dir') and rng.random() < 0.4:
             target = os.path.relpath(target, where)
         name = rng.choice(['lnk', 'l n', 'l%41', 'é'])
         nodes.append(['l', where + '/' + name, target])
         if tk == 'link':
             nodes.append(['l', where + '/l2', lay.home + '/tdir'])
+        if rng.random() < 0.15:
+            # the link's name is already taken in files/ by a payload that has no .trashinfo - a directory, or a link to one: the new
+            # entry gets another name, it is not moved INTO what is there
+            for t0 in [lay.home_trash] + [lay.top2(vv) for vv in lay.all_vols if lay.top[vv][1] in ('dir', 'absent')]:
+                if rng.random() < 0.5:
+                    nodes += [['d', t0 + '/files/' + name, 0o755], ['f', t0 + '/files/' + name + '/old', 'left over'], ['d', t0 + '/info', 0o700]]
+                else:
+                    nodes += [['l', t0 + '/files/' + name, '/canary/dir'], ['d', t0 + '/info', 0o700]]
         slashes = '/' * rng.choice([0, 0, 1, 2, 3])
         via = rng.random() < 0.25
         if via and rng.random() < 0.4 and where.count('/') >= 2:
